@@ -41,6 +41,13 @@ def SET(k, size=True):
     return ("set", k, size)
 
 
+def DICTOBJ(k, template, where=None, size=True):
+    """dict with a symbolic key set whose values are objects: the object stored under a key is materialised from `template`
+    on first access (lazy initialisation; distinct keys hold distinct objects).  `where`: expression over k (key) and v
+    (the materialised object) assumed to hold - the data-structure invariant of the map."""
+    return ("dictobj", k, template, where, size)
+
+
 def OPT(t):
     return ("opt", t)
 
